@@ -6,6 +6,7 @@ import (
 	"go/types"
 	"path"
 	"sort"
+	"strconv"
 	"strings"
 
 	"golang.org/x/tools/go/packages"
@@ -137,6 +138,13 @@ func (ih *ImportHandler) addNamed(t named) string {
 				aliasIsPackageName = strings.HasSuffix(pkg.Path(), pkgAlias)
 			}
 
+			// the name must not be bound already, or two imports (or an import and a
+			// declaration of the package) would share it.
+			if unique := ih.unusedName(pkgAlias); unique != pkgAlias {
+				pkgAlias = unique
+				aliasIsPackageName = false
+			}
+
 			i = &ImportDesc{
 				Alias:              pkgAlias,
 				PkgPath:            pkg.Path(),
@@ -163,6 +171,30 @@ func (ih *ImportHandler) addNamed(t named) string {
 	}
 
 	return fmt.Sprintf("%s%s", alias, typeName)
+}
+
+// unusedName returns name, or name followed by the first number (from 2) with which it differs
+// from the name of every import known to the handler and from every package-level name of the
+// package generated for.
+func (ih *ImportHandler) unusedName(name string) string {
+	bound := func(candidate string) bool {
+		for _, i := range ih.imports {
+			if i.Alias == candidate {
+				return true
+			}
+		}
+		for _, i := range ih.shadowed {
+			if i.Alias == candidate {
+				return true
+			}
+		}
+		return ih.PInfo != nil && ih.PInfo.Types != nil && ih.PInfo.Types.Scope().Lookup(candidate) != nil
+	}
+	result := name
+	for n := 2; bound(result); n++ {
+		result = name + strconv.Itoa(n)
+	}
+	return result
 }
 
 // UseName marks the import that the source file refers to by the given name (its alias, or the
